@@ -34,7 +34,7 @@ from compat import REPO, VERIF
 from props.base import corpus_for  # noqa: F401
 
 ID = 'C18'
-LEAN_MODULES = ['PybtexModel.Props.C18']
+LEAN_MODULES = ['PybtexModel.Props.C18', 'PybtexModel.Props.C18x']
 SERIAL = False
 CASE_TIMEOUT = 300      # a case is a whole history (up to ~2500 calls in the cache-overflow cases), run in a forked child
 THEOREMS = {
@@ -75,7 +75,47 @@ for _n in ('C18_memo_transparent', 'C18_months_constant', 'C18_readers_independe
            'C18_format_name_out_of_range', 'C18_cli_main_independent', 'C18_readers_independent_wanted', 'C18_reader_accumulates'):
     THEOREMS[_n + '_nonvacuous'] = 'the hypotheses of %s are satisfied by a concrete non-trivial instance' % _n
 
-RULE = ('memohist: EVERY key sequence of length <= 6 over 4 keys for capacities 2 and 3 (and capacity 2 with one raising key), plus capacity 1 up to '
+THEOREMS.update({
+    'C18_capture_restores': 'pybtex/errors.py operation by operation (model with an explicit STACK of capture() frames; nothing in its shape restores anything): a '
+                            'capture() block whose body is ANY sequence of report_error / set_strict_mode / further capture() blocks -- hypothesis: the body closes '
+                            'exactly the blocks it opens (finalDepth 0 body = some 0) -- entered in ANY state (inside other blocks or not, strict or not, any error_code): '
+                            'on leaving, captured_errors is the value it had on entry, the frame stack is as before, error_code / month table / registry / both caches '
+                            'untouched, strict = what the body\'s last set_strict_mode said, the list handed out = the reports made outside inner blocks as read off the '
+                            'text of the body (topReports), and no operation inside raised or printed',
+    'C18_capture_collects_independent': 'corollary: what a balanced capture() block hands out is the same from two ARBITRARY states of errors.* (removes "top level" for '
+                                        'the errors module itself; the World theorems still assume captured_errors None at the start)',
+    'C18_capture_restores_neg_unrestored': 'witness that the stack model can fail: with leaving = "captured_errors = None" (the module before the committed repair of '
+                                           'capture()) a report after an inner block is raised instead of collected',
+    'C18_find_plugin_is_the_code': 'composition with C17: for a non-empty name, a group of _DEFAULT_PLUGINS, Fns.entryPoint = the installed table (name in the group, then in '
+                                   '<group>.aliases) and an EMPTY run-time registry (hypothesis), the world\'s findPlugin returns what C17\'s function-level model of '
+                                   'find_plugin(group, name) returns; and the registry IS empty after every history of isPublic calls from a fresh interpreter (no Call '
+                                   'of the C18 alphabet is register_plugin)',
+    'C18_find_plugin_is_the_code_nonvacuous': '[finite check on the REGENERATED tables Gen.installedPlugins / Gen.defaultPlugins / Gen.c18Plugins] the constants the C18 model '
+                                              'hard-codes (pybtex.database.input / bibtex / pybtex.database.input.bibtex:Parser, also the default of its group) are what the '
+                                              'running interpreter has; Gen.c18Plugins = the installed names of the seven base groups; an alias resolves, an unknown name does not',
+})
+THEOREMS.update({
+    'C18_world_capture_is_stack_block': '[model wiring] Call.capture c of the World model = enter; c; exit of the stack machine around the transformer of c, for any stack of open '
+                                        'blocks, given the global is still a list when c returns; for isPublic c it is (step_frame); Call.nonstrict c = set_strict_mode(False); c; '
+                                        'set_strict_mode(as before)',
+    'C18_reader_wanted_monotone': 'across any files one reader goes through without raising (hypothesis readFiles = ok): a key wanted before is still wanted, and '
+                                  'get_canonical_key(k) is unchanged for every k (the spelling of the caller\'s original citation list); these are the oracle clauses of op dbhist',
+    'C18_reader_wanted_monotone_nonvacuous': 'the hypothesis of C18_reader_wanted_monotone is satisfied by a filtered reader over a file whose child makes its parent wanted',
+})
+THEOREMS['C18_model_constants_are_the_code'] = ('[finite check on Gen/C18Consts.lean, regenerated on every run from the SOURCE TEXT (ast) of Parser.process_entry, '
+                                                'BibliographyData.want_entry / add_entry, report_error, CommandLine.__call__] unnamed-%i, the wild card *, the field crossref, '
+                                                'error_code = 2 on a warning and exit status 1 are the constants the model uses')
+THEOREMS['C18_capture_restores_nonvacuous'] = 'the hypothesis of C18_capture_restores is satisfied by a body with a nested block, entered at top level and inside another block after a warning'
+
+RULE = ('dbhist: BibliographyData(wanted_entries=cits) + a sequence of add_entry calls (keys in several spellings, crossref fields) on the REAL class, compared call by '
+        'call with newReaderWanted / addEntry / wantEntry / canonicalKey (want_entry, get_canonical_key, keys held, wanted set, reports); oracle: earlier entries stay '
+        'a prefix, the wanted set only grows, a kept entry is stored under the spelling of the ORIGINAL citation list; '
+        'capturehist: EVERY sequence of <= 5 operations over {report_error(e1), report_error(e2), set_strict_mode(False), set_strict_mode(True), enter capture(), '
+        'leave the innermost capture()} that never leaves a block it did not enter (3 kinds of exception objects), plus seeded random sequences of <= 14 operations, run '
+        'on the REAL pybtex.errors (context-manager objects entered / left by hand, pybtex.io.stderr captured) and compared operation by operation with the stack model '
+        '(result, strict, error_code, captured_errors, depth); oracle: every block hands out what the TEXT of its body says (specCollected), a report inside a block is '
+        'collected silently; '
+        'memohist: EVERY key sequence of length <= 6 over 4 keys for capacities 2 and 3 (and capacity 2 with one raising key), plus capacity 1 up to '
         'length 4; worldhist: seeded random histories of <= 5 (quick) / <= 8 (thorough) calls over {parse .bib with @string in strict/capture/'
         'non-strict mode, parse yaml, parse bibtexml, to_string each format (the same database object written twice), Python format_bibliography '
         '(the same database and style object formatted three times, format_entries on a caller\'s list), BibTeX-engine run (unsrt / plain / the '
@@ -94,6 +134,8 @@ TRUSTED = ['introspection of the closure cells `memory`/`history`/`capacity` of 
            're-checked against separately started interpreters on every run)',
            'the C04/C11/C12 models (name splitting, Person, format_name) are what the driver uses for the un-modelled name code',
            'Python == on the argument tuples of the memoised functions is structural equality (str and int arguments only)',
+           'capturehist: errors.capture() objects entered and left by hand (__enter__ / __exit__(None, None, None)) stand for `with` blocks; the warning line is read from a '
+           'StringIO put in place of pybtex.io.stderr',
            'deep_freeze (harness): the canonical JSON of every attribute reachable from a database object is what "the database" means for '
            '"never modifies it"']
 ASSUMPTIONS = ['histories consist of calls satisfying Call.isPublic: no call hands the module\'s own month_names dict to LowLevelParser as its in/out `macros` argument (an ordinary API call; '
@@ -103,8 +145,6 @@ ASSUMPTIONS = ['histories consist of calls satisfying Call.isPublic: no call han
                'empirically (fresh-process comparison)',
                'histories run at top level (not inside an enclosing errors.capture())',
                '.bib literals in modelled documents are white-space normalised; tokenising is C01\'s subject',
-               'engine runs over in-memory strings in NON-strict mode are driven only when they print no located problem (undefined macro): printing '
-               'one crashes on the unchanged tree (AttributeError in pybtex.io._decode_filename, the "file name" being a StringIO; a C16/C17 matter)',
                'wanted_entries and the unnamed-entry counter are modelled for the reader (parse with wanted_entries=... / keyless_entries=True: '
                'filtering, the caller\'s spelling of cited keys, cross-reference targets becoming wanted, key-less entries numbered per reader); '
                'a document is written either for a key-less reader or for an ordinary one (for the other it is a chain of syntax errors: C01/C10); '
@@ -699,6 +739,29 @@ def _concrete_call(call, notes):
                 notes.append('reader_accumulates: one key-less reader over %d files with %d entries in all holds %d entries %r' % (
                     len(call['texts']), want, len(db.entries), list(db.entries.keys())))
         return {'str': 'x'}, {'db': freeze_db(db)}
+    if c == 'x_find':
+        # find_plugin by name / by file name / default, also in a group that does not exist (PluginGroupNotFound)
+        from pybtex.plugin import find_plugin
+        cls = find_plugin(call['group'], call.get('name'), filename=call.get('filename'))
+        return {'str': 'x'}, {'cls': '%s:%s' % (cls.__module__, cls.__name__)}
+    if c == 'x_climain_args':
+        # main() of a command-line tool called in-process with the WRONG number of arguments: print_help(); sys.exit(1)
+        import pybtex.io
+        from pybtex.database.convert.__main__ import main
+        old = (sys.argv, sys.stdout, pybtex.io.stderr)
+        buf = _io.StringIO()
+        try:
+            sys.argv = [main.prog] + list(call['argv'])
+            sys.stdout = buf
+            pybtex.io.stderr = buf
+            try:
+                main()
+                code = None
+            except SystemExit as e:
+                code = e.code
+        finally:
+            sys.argv, sys.stdout, pybtex.io.stderr = old
+        return {'str': 'x'}, {'exit': code, 'help': buf.getvalue()[:200]}
     raise ValueError('unknown call %r' % c)
 
 
@@ -1032,9 +1095,110 @@ def _impl_world(case):
     return {'op': case['op'], 'steps': steps, 'probe_full': [probe_full[p] for p in sorted(probe_full)], 'fresh': fresh, 'notes': sorted(set(notes))}
 
 
+def make_exc(d):
+    """the exception object a `capturehist` operation reports"""
+    from pybtex.exceptions import PybtexError
+    from pybtex.bibtex.exceptions import BibTeXError
+    from pybtex.database import InvalidNameString
+    if d['k'] == 'invalid':
+        return InvalidNameString(d['name'])
+    if d['k'] == 'nosuch':
+        return BibTeXError('there is no name number %d in "%s"' % (d['n'], d['names']))
+    return {'PybtexError': PybtexError, 'BibTeXError': BibTeXError}[d['tag']]('some problem')
+
+
+def impl_err(case):
+    """primitive operations on the REAL pybtex.errors; `capture()` objects are entered and left by hand so that blocks nest
+    and interleave with the other operations exactly as the case says"""
+    import pybtex.io
+    from pybtex import errors
+    saved = (errors.strict, errors.error_code, errors.captured_errors, pybtex.io.stderr)
+    errors.strict, errors.error_code, errors.captured_errors = True, 0, None
+    stack = []           # (context manager, the list it handed out, the object captured_errors was on entry)
+    out = []
+    try:
+        for op in case['ops']:
+            o = op['o']
+            step = {'r': None}
+            notes = []
+            if o == 'report':
+                exc = make_exc(op['e'])
+                buf = _io.StringIO()
+                pybtex.io.stderr = buf
+                try:
+                    errors.report_error(exc)
+                    if buf.getvalue():                       # a warning was printed (its wording is C16's subject)
+                        step['r'] = {'warned': canon_err(exc)}
+                except Exception as e:  # noqa
+                    step['r'] = {'raised': canon_err(e)}
+                finally:
+                    pybtex.io.stderr = saved[3]
+            elif o == 'strict':
+                errors.set_strict_mode(op['b'])
+            elif o == 'enter':
+                before = errors.captured_errors
+                cm = errors.capture()
+                lst = cm.__enter__()
+                stack.append((cm, lst, before))
+            elif o == 'exit':
+                if not stack:
+                    step['r'] = 'INVALID'
+                else:
+                    cm, lst, before = stack.pop()
+                    cm.__exit__(None, None, None)
+                    step['r'] = {'collected': [canon_err(e) for e in lst]}
+            else:
+                raise ValueError(o)
+            step.update({'strict': errors.strict, 'error_code': errors.error_code, 'depth': len(stack),
+                         'captured': None if errors.captured_errors is None else [canon_err(e) for e in errors.captured_errors]})
+            if notes:
+                step['notes'] = notes
+            out.append(step)
+    finally:
+        while stack:
+            try:
+                stack.pop()[0].__exit__(None, None, None)
+            except Exception:  # noqa
+                pass
+        errors.strict, errors.error_code, errors.captured_errors, pybtex.io.stderr = saved
+    return out
+
+
+def impl_db(case):
+    """BibliographyData(wanted_entries=cits) and a sequence of add_entry calls, each under capture(): function level for
+    BibliographyData.__init__ / add_entry / want_entry / get_canonical_key"""
+    from pybtex import errors
+    from pybtex.database import BibliographyData, Entry
+    cits = None if case.get('cits') is None else list(case['cits'])
+    data = BibliographyData(wanted_entries=cits)
+    out = []
+    for a in case['adds']:
+        fields = [('note', 'n')] + ([tuple(a['xref'])] if a.get('xref') else [])
+        entry = Entry('misc', fields=fields)
+        step = {'want': bool(data.want_entry(a['key'])), 'canonical': data.get_canonical_key(a['key']), 'raised': None}
+        with errors.capture() as errs:
+            try:
+                data.add_entry(a['key'], entry)
+            except Exception as e:  # noqa
+                step['raised'] = canon_err(e)
+            step['reported'] = [canon_err(e) for e in errs]
+        step['keys'] = [e.key for e in data.entries.values()]
+        if list(data.entries.keys()) != step['keys']:
+            step['dict_keys'] = list(data.entries.keys())       # an entry stored under another key than its `key` attribute
+        step['wanted'] = None if data.wanted_entries is None else sorted(k.lower() for k in data.wanted_entries)
+        out.append(step)
+    if cits is not None and cits != case['cits']:
+        out.append({'inputs_not_modified': 'BibliographyData changed the wanted_entries list it was given from %r to %r' % (case['cits'], cits)})
+    return out
+
+
 def impl(case):
     if case['op'] == 'memohist':
         return impl_memo(case)
+    if case['op'] == 'dbhist':
+        return impl_db(case)
+    if case['op'] == 'capturehist':
+        return impl_err(case)
     return impl_world(case)
 
 
@@ -1054,6 +1218,8 @@ def describe(call):
         return 'parse:wanted' 
     if c == 'lowlevel':
         return 'lowlevel:%s' % (call['arg'] if isinstance(call['arg'], str) else 'table')
+    if c == 'x_find':
+        return 'x_find:%s' % ('name' if call.get('name') else 'file' if call.get('filename') else 'default')
     return c
 
 
@@ -1062,7 +1228,7 @@ def describe(call):
 # ------------------------------------------------------------------------------------------------
 
 def to_request(case):
-    if case['op'] == 'memohist':
+    if case['op'] in ('memohist', 'capturehist', 'dbhist'):
         return case
     if case['op'] == 'freshhist':
         return {'op': 'ping', 's': ''}
@@ -1111,7 +1277,9 @@ def _norm_world(w):
 
 
 def model_out(case, reply):
-    if case['op'] == 'memohist':
+    if case['op'] == 'dbhist':
+        return [dict(st, wanted=None if st['wanted'] is None else sorted(st['wanted'])) for st in reply['out']]
+    if case['op'] in ('memohist', 'capturehist'):
         return reply['out']
     if case['op'] == 'freshhist':
         return None
@@ -1126,7 +1294,7 @@ def model_out(case, reply):
 
 def compare_view(io):
     if isinstance(io, list):
-        return io
+        return [({k: v for k, v in s.items() if k != 'notes'} if isinstance(s, dict) and 'depth' in s else s) for s in io]
     if io.get('op') == 'freshhist':
         return None
     return [{'res': _norm_res_list(s['res']), 'world': _norm_world(s['world'])} for s in io['steps']]
@@ -1163,6 +1331,46 @@ def oracle(case, io, reply):
                         i, case['keys'], cap, step['memory'], step['history']))
                     break
         return fails
+    if case['op'] == 'dbhist':
+        spec = reply.get('spec', [])
+        prev_keys, prev_wanted = [], None
+        for i, step in enumerate(io):
+            if 'inputs_not_modified' in step:
+                fails.append('inputs_not_modified: ' + step['inputs_not_modified'])
+                break
+            a = case['adds'][i]
+            if step['keys'][:len(prev_keys)] != prev_keys:
+                fails.append('reader_accumulates: add_entry #%d (%r) of %r (cited %r): the entries held before, %r, are not a prefix of %r' % (
+                    i, a['key'], [x['key'] for x in case['adds']], case.get('cits'), prev_keys, step['keys']))
+                break
+            if prev_wanted is not None and (step['wanted'] is None or not set(prev_wanted) <= set(step['wanted'])):
+                fails.append('reader_accumulates: add_entry #%d (%r): the wanted set shrank from %r to %r' % (i, a['key'], prev_wanted, step['wanted']))
+                break
+            if len(step['keys']) > len(prev_keys) and step['keys'][-1] != spec[i]:
+                fails.append('reader_accumulates: add_entry #%d of %r (cited %r): the entry %r is stored as %r; the spelling of the citation list is %r' % (
+                    i, [x['key'] for x in case['adds']], case.get('cits'), a['key'], step['keys'][-1], spec[i]))
+                break
+            if 'dict_keys' in step:
+                fails.append('reader_accumulates: add_entry #%d: the dict keys %r differ from the key attributes %r' % (i, step['dict_keys'], step['keys']))
+                break
+            prev_keys, prev_wanted = step['keys'], step['wanted']
+        return fails
+    if case['op'] == 'capturehist':
+        spec = reply.get('spec', [])
+        for i, (op, step, want) in enumerate(zip(case['ops'], io, spec)):
+            for n in step.get('notes', []):
+                fails.append('errors_restored: operation #%d (%s) of %s: %s' % (i, op['o'], describe_ops(case['ops']), n))
+            if op['o'] == 'exit':
+                got = step['r'].get('collected') if isinstance(step['r'], dict) else step['r']
+                if canon(got) != canon(want):
+                    fails.append('errors_restored: the capture() block left by operation #%d of %s handed out %s; the reports made in its body outside '
+                                 'inner blocks are %s' % (i, describe_ops(case['ops']), canon(got)[:300], canon(want)[:300]))
+            elif op['o'] == 'report' and step['depth'] > 0 and step['r'] is not None:
+                fails.append('errors_restored: operation #%d of %s: a report inside a capture() block was not collected silently: %s' % (
+                    i, describe_ops(case['ops']), canon(step['r'])[:200]))
+            if fails:
+                break
+        return fails
     # ---- histories
     fails.extend(io['notes'])
     flat = flatten(case)
@@ -1191,6 +1399,11 @@ def oracle(case, io, reply):
     return fails
 
 
+def describe_ops(ops):
+    return '[' + ', '.join({'report': 'report(%s)' % (op.get('e') or {}).get('k'), 'strict': 'strict(%s)' % op.get('b'),
+                            'enter': 'enter', 'exit': 'exit'}.get(op['o'], op['o']) for op in ops) + ']'
+
+
 def _first_diff(a, b):
     sa, sb = canon(a), canon(b)
     i = 0
@@ -1203,12 +1416,28 @@ def buckets(case, io):
     if case['op'] == 'memohist':
         ev = sum(len(s.get('evicted', [])) for s in io)
         return ['memo:cap=%d' % case['cap'], 'memo:evictions>0' if ev else 'memo:no-eviction']
+    if case['op'] == 'dbhist':
+        steps = [st for st in io if 'keys' in st]
+        return ['dbhist', 'db:filtered' if case.get('cits') is not None else 'db:all'] + sorted(
+            {'db:repeated' for st in steps if st['reported']} | {'db:dropped' for st in steps if not st['want']} |
+            {'db:respelt' for st, a in zip(steps, case['adds']) if st['canonical'] != a['key']} |
+            {'db:crossref-wanted' for st, a in zip(steps, case['adds']) if a.get('xref') and st['want'] and case.get('cits') is not None})
+    if case['op'] == 'capturehist':
+        kinds = set()
+        for s in io:
+            r = s['r']
+            kinds.add('err:' + (r if isinstance(r, str) else 'none' if r is None else sorted(r)[0]))
+        return ['capturehist', 'err:maxdepth=%d' % max([s['depth'] for s in io] + [0])] + sorted(kinds)
     return [case['op']] + sorted({'call:' + describe(h) for h in case['history']})
 
 
 def nontrivial(case, io):
     if case['op'] == 'memohist':
         return len(set(case['keys'])) > case['cap']
+    if case['op'] == 'dbhist':
+        return len(case['adds']) > 1
+    if case['op'] == 'capturehist':
+        return any(op['o'] == 'report' for op in case['ops']) and any(op['o'] == 'enter' for op in case['ops'])
     return len(case['history']) > 0
 
 
@@ -1503,8 +1732,14 @@ def gen_xcall(rng):
         return _mode(rng, {'c': 'x_text', 'text': rng.choice(['@article{a, title = {unclosed', '@string{jan = "X"} @misc{m, month = jan, note = zzz}',
                                                            '@misc{a, author = "A, B, C, D and ~"} @misc{a}', 'entries: [1, 2'])
                            , 'fmt': rng.choice(['bibtex', 'bibtex', 'yaml'])})
-    if r < 0.9:
+    if r < 0.86:
         return {'c': 'lowlevel', 'arg': 'default', 'doc': [{'k': 'string', 'name': rng.choice(['jan', 'zz']), 'val': [_lit('X')]}]}
+    if r < 0.91:
+        return _mode(rng, {'c': 'x_find', 'group': rng.choice(['pybtex.backends', 'pybtex.database.input', 'pybtex.style.names', 'pybtex.nosuchgroup']),
+                           'name': rng.choice([None, None, 'md', 'bibyaml', 'last_first', 'latex', 'nosuch', '']),
+                           'filename': rng.choice([None, 'a.bib', 'dir.d/b.yaml', 'c.md', '.bib', 'noext'])})
+    if r < 0.95:
+        return _mode(rng, {'c': 'x_climain_args', 'argv': rng.choice([[], ['--strict'], ['only-one.bib'], ['--strict', 'a.bib', 'b.yaml', 'c.txt']])})
     return gen_call(rng)
 
 
@@ -1517,12 +1752,102 @@ def memo_cases():
     return cases
 
 
+ERR_POOL = [{'k': 'other', 'tag': 'PybtexError'}, {'k': 'invalid', 'name': 'A, B, C, D'}, {'k': 'nosuch', 'n': 3, 'names': 'Knuth, Donald E. and Leslie Lamport'},
+            {'k': 'other', 'tag': 'BibTeXError'}, {'k': 'nosuch', 'n': -1, 'names': 'A'}, {'k': 'invalid', 'name': 'a, b, c, d, e'}]
+ERR_ALPHABET = [{'o': 'report', 'e': ERR_POOL[0]}, {'o': 'report', 'e': ERR_POOL[1]}, {'o': 'strict', 'b': False}, {'o': 'strict', 'b': True},
+                {'o': 'enter'}, {'o': 'exit'}]
+
+
+def _valid_ops(ops):
+    depth = 0
+    for op in ops:
+        if op['o'] == 'enter':
+            depth += 1
+        elif op['o'] == 'exit':
+            depth -= 1
+            if depth < 0:
+                return False
+        elif op['o'] == 'report':
+            e = op['e']
+            if e['k'] == 'other' and e['tag'] not in ('PybtexError', 'BibTeXError'):
+                return False
+            if e['k'] == 'invalid' and not re.match(r'^[A-Za-z ,.]*$', e['name']):
+                return False
+            if e['k'] == 'nosuch' and not (isinstance(e['n'], int) and re.match(r'^[A-Za-z ,.]*$', e['names'])):
+                return False
+            if e['k'] not in ('other', 'invalid', 'nosuch'):
+                return False
+        elif op['o'] != 'strict' or not isinstance(op['b'], bool):
+            return False
+    return True
+
+
+def err_cases(tier, rng):
+    cases = []
+    for n in range(0, 6):
+        for ops in itertools.product(ERR_ALPHABET, repeat=n):
+            if _valid_ops(ops):
+                cases.append({'op': 'capturehist', 'ops': list(ops)})
+    n_exh = len(cases)
+    for _ in range(300 if tier == 'quick' else 4000):
+        ops, depth = [], 0
+        for _i in range(rng.randint(3, 14)):
+            r = rng.random()
+            if r < 0.4:
+                ops.append({'o': 'report', 'e': rng.choice(ERR_POOL)})
+            elif r < 0.5:
+                ops.append({'o': 'strict', 'b': rng.random() < 0.5})
+            elif r < 0.75 or depth == 0:
+                ops.append({'o': 'enter'})
+                depth += 1
+            else:
+                ops.append({'o': 'exit'})
+                depth -= 1
+        if rng.random() < 0.7:           # close everything, then something at top level again
+            ops += [{'o': 'exit'}] * depth + [{'o': 'report', 'e': rng.choice(ERR_POOL)}]
+        cases.append({'op': 'capturehist', 'ops': ops})
+    return cases, n_exh
+
+
+DB_KEYS = ['a', 'A', 'b', 'p']
+
+
+def db_cases(tier, rng):
+    """EVERY citation list of <= 2 elements over {a, A, b, *} (or no filtering) x EVERY sequence of <= 3 add_entry calls over
+    4 keys x {no crossref, crossref -> p}; plus seeded longer ones"""
+    cases = []
+    cit_lists = [None] + [list(c) for n in range(0, 3) for c in itertools.product(['a', 'A', 'b', '*'], repeat=n)]
+    adds1 = [{'key': k} for k in DB_KEYS] + [{'key': k, 'xref': ['crossref', 'p']} for k in ('a', 'b')] + [{'key': 'a', 'xref': ['Crossref', 'B']}]
+    for cits in cit_lists:
+        for n in range(1, 4 if tier != 'quick' else 3):
+            for adds in itertools.product(adds1, repeat=n):
+                cases.append({'op': 'dbhist', 'cits': cits, 'adds': list(adds)})
+    n_exh = len(cases)
+    pool = ['k1', 'K1', 'k2', 'smith99', 'SMITH99', 'p9', 'unnamed-1']
+    for _ in range(200 if tier == 'quick' else 2000):
+        cits = None if rng.random() < 0.25 else rng.sample(pool + ['*'], rng.randint(0, 4))
+        adds = []
+        for _i in range(rng.randint(2, 7)):
+            a = {'key': rng.choice(pool)}
+            if rng.random() < 0.4:
+                a['xref'] = [rng.choice(['crossref', 'CrossRef']), rng.choice(pool)]
+            adds.append(a)
+        cases.append({'op': 'dbhist', 'cits': cits, 'adds': adds})
+    return cases, n_exh
+
+
 def valid_case(case):
     try:
         if case['op'] == 'memohist':
             return case['cap'] >= 1 and all(isinstance(k, int) for k in case['keys'])
         if case['op'] == 'freshhist':
             return True
+        if case['op'] == 'capturehist':
+            return _valid_ops(case['ops'])
+        if case['op'] == 'dbhist':
+            ok = lambda k: isinstance(k, str) and re.match(r'^[A-Za-z0-9*-]+$', k) is not None
+            return (case.get('cits') is None or all(ok(k) for k in case['cits'])) and all(
+                ok(a['key']) and (not a.get('xref') or (a['xref'][0].lower() == 'crossref' and ok(a['xref'][1]))) for a in case['adds'])
         return all(_valid_call(c) for c in list(case['history']) + list(case['probe']))
     except Exception:
         return False
@@ -1614,10 +1939,9 @@ def _valid_call(call, warns=False):
         return call['call']['c'] not in ('fmtmany',) and _valid_call(call['call'], False)
     if c == 'nonstrict':
         return call['call']['c'] not in ('fmtmany',) and _valid_call(call['call'], True)
-    if warns and c in ('bibtex', 'python') and not _all_defined(call['files'], ['zzleak'] if call['style'] == 'tiny' else MONTHS):
-        # printing a LOCATED problem of an engine run over in-memory strings crashes on the unchanged tree (AttributeError in
-        # pybtex.io._decode_filename: the "file name" is a StringIO; a C16/C17 matter, DESIGN section 4): not driven here
-        return False
+    # (round 2) an engine run over in-memory strings in non-strict mode that PRINTS a located problem (undefined macro) is driven
+    # too: the crash it ended in (AttributeError in pybtex.io._decode_filename, the "file name" being a StringIO) is repaired
+    # in /repo (e1a501a)
     if c == 'climain':
         inner = call['call']
         return (isinstance(call['strict'], bool) and inner['c'] in ('parse', 'python') and len(inner['files']) == 1 and _valid_call(inner)
@@ -1657,6 +1981,10 @@ def _valid_call(call, warns=False):
 def gen_cases(tier, rng, info):
     cases = memo_cases()
     n_memo = len(cases)
+    ecases, n_err_exh = err_cases(tier, rng)
+    cases += ecases
+    dcases, n_db_exh = db_cases(tier, rng)
+    cases += dcases
     quick = tier == 'quick'
     maxh = 5 if quick else 8
     n_world = 840 if quick else 6400
@@ -1690,7 +2018,9 @@ def gen_cases(tier, rng, info):
         if canon(_spawn_fresh(c)) != canon(_FRESH[canon(c)]):
             raise RuntimeError('forked fresh child and fresh interpreter process differ on %s' % canon(c)[:300])
     info['exhaustive'] = True
-    info['scope'] = ('memohist: all %d key sequences (capacity 2, 3: length <= 6 over 4 keys; capacity 2 with a raising key; capacity 1: length <= 4); '
+    info['scope'] = ('capturehist: all %d operation sequences of length <= 5 over 6 operations that never leave a block they did not enter + %d seeded ones of length <= 15; ' % (
+        n_err_exh, len(ecases) - n_err_exh) + 'dbhist: all %d (citation list of <= 2 over 4 spellings or none) x (add_entry sequences of <= %d over 7 entries) + %d seeded; ' % (
+        n_db_exh, 2 if quick else 3, len(dcases) - n_db_exh) + 'memohist: all %d key sequences (capacity 2, 3: length <= 6 over 4 keys; capacity 2 with a raising key; capacity 1: length <= 4); '
                      'worldhist: %d seeded histories of <= %d calls x probe at every position (+ %d cache-overflow histories with %d distinct '
                      'format.name$ arguments); freshhist: %d concrete histories over tests/data' % (
                          n_memo, n_world, maxh, len(world) - n_world, big, len(fresh_cases)))
@@ -1718,7 +2048,12 @@ LEVEL_TEXT = ('Machine-checked proofs (Lean 4) over an explicit model of the pro
               'real memoize exhaustively over small scopes and real API histories call by call (results, month table, errors.*, registry and both '
               'cache key lists compared with the model), by comparing every probe -- and the concrete outcome of history calls -- with a fresh '
               'interpreter process and with the first occurrence of the same call, and by deep-freezing every database object before / after it is '
-              'formatted or written.')
+              'formatted or written.  Round 2: pybtex/errors.py is also modelled operation by operation with an explicit stack of capture() frames '
+              '(any nesting, entered in any state: leaving re-installs the value seen on entry, error_code and everything else untouched, the list handed '
+              'out is what the text of the body says) and driven function by function (op capturehist: exhaustive to length 5 + random); '
+              'BibliographyData(wanted_entries)/add_entry/want_entry/get_canonical_key are driven call by call (op dbhist); the world\'s find_plugin is '
+              'proved equal to C17\'s function-level model of find_plugin on an empty registry; the constants of the model are regenerated from the '
+              'source text and kernel-checked against the definitions.')
 LEVEL_NOTE = ('PARTIAL BY NATURE.  Modelled: month_names (one table; Parser copies it, LowLevelParser writes to the table it is given), '
               'memoize (dict + FIFO deque, regenerated capacity) instantiated as in builtins.py, the format.name$ built-in with its range check, '
               'errors.strict/error_code/captured_errors with report_error/capture/set_strict_mode, CommandLine.main (the one entry point that writes '
@@ -1740,4 +2075,8 @@ LEVEL_NOTE = ('PARTIAL BY NATURE.  Modelled: month_names (one table; Parser copi
               'before/after to_string, format_bibliography and format_entries; multi-element citation and entry lists compared).  The model follows '
               'proposed_fixes/C18-1.diff (LowLevelParser default macros), C18-2.diff (name problems reported on cache hits as on misses), '
               'C18-3.diff (CommandLine.main) and C18-4.diff (unnamed-entry counter per reader); the pre-fix behaviours are kept expressible and '
-              'their failure is proved (C18_months_constant_neg_aliased, C18_cli_main_neg_pinned, C18_reader_accumulates_neg_pinned).  Memo keys: Python equality of (str, int, str) tuples is taken to be structural.')
+              'their failure is proved (C18_months_constant_neg_aliased, C18_cli_main_neg_pinned, C18_reader_accumulates_neg_pinned).  Memo keys: Python equality of (str, int, str) tuples is taken to be structural.  '
+              'Round 2: the stack model of errors.py (Model/ErrorsStack.lean) needs no top-level hypothesis (C18_capture_restores holds from any state); the World theorems '
+              'still do, and C18_world_capture_is_stack_block only WIRES Call.capture / Call.nonstrict to the stack machine.  register_plugin / enumerate_plugin_names are not '
+              'calls of the C18 alphabet (C17 models them): "the registry stays empty" is what C18_find_plugin_is_the_code uses.  coverage/C18.md lists every function, how it '
+              'is tied and what is still hard-coded (name format strings of the test styles in the driver, message texts in the harness\'s canon_err).')
